@@ -63,7 +63,7 @@ RULE = ("cases = (a) subtrees of the history space: all op sequences (enter(call
         "distinct config states reached are counted separately")
 ASSUMPTIONS = ["copy.deepcopy and dict equality are the snapshot oracle", "ast.literal_eval is the documented value parser",
                "the global config is only touched under planted 'vf*' keys and verified unchanged after every case"]
-BUDGET = {"quick": 35, "thorough": 540}
+BUDGET = {"quick": 60, "thorough": 540}
 FLOORS = {
     "quick": {"evaluations": 1100, "distinct_nontrivial": 1100,
               "counters": {"histories": 440000, "histories_private": 415000, "histories_global": 14000, "set_calls": 1200000,
@@ -71,17 +71,23 @@ FLOORS = {
                            "global_config_verifications": 220, "update_checks": 4000, "merge_checks": 1300,
                            "collect_env_checks": 2700, "serialize_roundtrips": 1350},
               "sets": {"config_states": 4800, "random_histories": 9500}},
-    "thorough": {"evaluations": 1100, "distinct_nontrivial": 1100,
-                 "counters": {"histories": 440000}},
+    "thorough": {"evaluations": 7200, "distinct_nontrivial": 7200,
+                 "counters": {"histories": 7400000, "histories_private": 6900000, "histories_global": 210000, "set_calls": 24000000,
+                              "exits_checked": 12600000, "raising_sets_checked": 9000000, "get_checks": 60000000,
+                              "global_config_verifications": 1100, "update_checks": 100000, "merge_checks": 33000,
+                              "collect_env_checks": 67000, "serialize_roundtrips": 33000},
+                 "sets": {"config_states": 12900, "random_histories": 175000}},
 }
 EXHAUSTIVE_SPACE = {
     "quick": ("private config= dict: all histories of <= 3 operations over the full alphabet of 44 set-calls and all histories of "
               "<= 4 operations over the reduced alphabet of 12 set-calls, from each of the 8 initial states; global "
               "dask.config.config: all histories of <= 2 operations (full alphabet) and <= 3 (reduced alphabet) from each of "
               "the 8 initial states. (operation = enter(call) or exit; histories end with an enter and are then unwound)"),
-    "thorough": ("private config= dict: all histories of <= 4 operations over the full alphabet of 44 set-calls and all histories of "
-                 "<= 5 operations over the reduced alphabet of 12 set-calls, from each of the 8 initial states; global "
-                 "dask.config.config: all histories of <= 3 operations (full alphabet) and <= 4 (reduced alphabet)"),
+    "thorough": ("private config= dict: all histories of <= 3 operations over the full alphabet of 44 set-calls and all histories of "
+                 "<= 5 operations over the reduced alphabet of 12 set-calls, from each of the 8 initial states, and all histories "
+                 "of <= 4 operations over the full alphabet from the initial states empty / prefix-scalar / nested-hyphen; global "
+                 "dask.config.config: all histories of <= 3 operations (full alphabet, the same 3 initial states) and <= 4 "
+                 "(reduced alphabet, all 8 initial states)"),
 }
 LEVEL_NOTE = "trusts deepcopy/dict equality, ast.literal_eval, json and the harness's own 15-line update and 12-line assignment models"
 CASE_TIMEOUT = 600
@@ -202,8 +208,8 @@ def _extensions(prefix, a, L):
     yield from rec(depth)
 
 
-def _subtree_cases(alpha, a, L, plen, cfg):
-    for ii in range(len(INITS)):
+def _subtree_cases(alpha, a, L, plen, cfg, inits=None):
+    for ii in (range(len(INITS)) if inits is None else inits):
         for l in range(1, min(plen, L + 1)):
             for p in _valid_seqs(a, l, True):
                 yield {"space": "exhaustive", "kind": "hist", "alpha": alpha, "cfg": cfg, "init": ii, "prefix": p, "L": l}
@@ -214,16 +220,20 @@ def _subtree_cases(alpha, a, L, plen, cfg):
                 yield {"space": "exhaustive", "kind": "hist", "alpha": alpha, "cfg": cfg, "init": ii, "prefix": p, "L": L}
 
 
+DEEP_INITS = (0, 1, 2)      # empty, prefix-scalar, nested-hyphen: the initial states of the deepest thorough enumeration
+
+
 def cases(tier, seed):
     rng = random.Random(seed * 15485863 + 17)
     if tier == "quick":
-        plan = [("full", 44, 3, 1, "private"), ("reduced", 12, 4, 2, "private"),
-                ("full", 44, 2, 1, "global"), ("reduced", 12, 3, 1, "global")]
+        plan = [("full", 44, 3, 1, "private", None), ("reduced", 12, 4, 2, "private", None),
+                ("full", 44, 2, 1, "global", None), ("reduced", 12, 3, 1, "global", None)]
     else:
-        plan = [("full", 44, 4, 2, "private"), ("reduced", 12, 5, 2, "private"),
-                ("full", 44, 3, 1, "global"), ("reduced", 12, 4, 2, "global")]
-    for alpha, a, L, plen, cfg in plan:
-        yield from _subtree_cases(alpha, a, L, plen, cfg)
+        plan = [("full", 44, 3, 1, "private", None), ("reduced", 12, 5, 2, "private", None),
+                ("full", 44, 3, 1, "global", DEEP_INITS), ("reduced", 12, 4, 2, "global", None),
+                ("full", 44, 4, 2, "private", DEEP_INITS)]
+    for alpha, a, L, plen, cfg, inits in plan:
+        yield from _subtree_cases(alpha, a, L, plen, cfg, inits)
     # ---- sampled ---------------------------------------------------------------
     k = 120 if tier == "quick" else 3000
     for _ in range(k):
